@@ -92,7 +92,7 @@ def default_move_cz_impl(
 
     fwd_kernel(zone, ctrl_x_ids, ctrl_y_ids, qarg_x_ids, qarg_y_ids, x_shift, y_shift)
     gate.top_hat_cz(zone)
-    bwd_kernel(zone, qarg_x_ids, qarg_y_ids, ctrl_x_ids, ctrl_y_ids, x_shift, y_shift)
+    bwd_kernel(zone, ctrl_x_ids, ctrl_y_ids, qarg_x_ids, qarg_y_ids, x_shift, y_shift)
 
 
 DEFAULT_X_SHIFT = 2.0
